@@ -220,6 +220,8 @@ type ErrorResponse struct {
 
 // HTTPEndpoint is the HTTP mapping of a method.
 type HTTPEndpoint struct {
+	// Meta written inside HTTP(func(){ ... }) (openapi tags, operation id, extensions ...)
+	Meta         [][]string       `json:"meta,omitempty"`
 	Routes       []Route          `json:"routes"`
 	Path         []Mapping        `json:"path,omitempty"` // attributes captured from the path
 	Query        []Mapping        `json:"query,omitempty"`
@@ -299,6 +301,8 @@ type Service struct {
 	Files     []FileServer     `json:"files,omitempty"`
 	HasHTTP   bool             `json:"has_http,omitempty"`
 	HasGRPC   bool             `json:"has_grpc,omitempty"`
+	// Meta written in the service body (openapi tags, extensions ...)
+	Meta [][]string `json:"meta,omitempty"`
 }
 
 // API holds the API-level declarations.
